@@ -268,3 +268,28 @@ Fixpoint apply_edits (lines : list (list N)) (cur : Z) (es : list edit) : list (
 Definition blank_line (l : list N) : bool := forallb is_space (utf8_decode l).
 Definition strip_trailing_blank (ls : list (list N)) : list (list N) :=
   rev (drop_while blank_line (rev ls)).
+
+(* ---- genlsp/format.go: astFormatter.Format ------------------------------------------------- *)
+(* protocol.Position{Line: uint32(diff.FromLine), Character: 0} etc.; int -> uint32 wraps *)
+Record lsp_pos := mkLP { lp_line : Z; lp_char : Z }.
+Record text_edit := mkTE { te_start : lsp_pos; te_end : lsp_pos; te_text : list N }.
+Definition uint32 (z : Z) : Z := Z.modulo z 4294967296.
+Definition to_text_edit (e : edit) : text_edit :=
+  mkTE (mkLP (uint32 (e_from e)) 0) (mkLP (uint32 (e_to e)) 0) (e_text e).
+Definition lsp_format (input : list N) : outcome (list text_edit) :=
+  omap (map to_text_edit) (fmt_diffs input).
+
+(* an editor applying TextEdits whose positions all have character 0, to the document whose
+   lines (strings.Split on "\n") are [lines]: position (L,0) is the offset just after the L-th
+   newline, or the end of the document when there are fewer lines.  [seg a b] is the text
+   between the positions (a,0) and (b,0), a <= b *)
+Definition seg (lines : list (list N)) (a b : Z) : list N :=
+  if (b <? Z.of_nat (length lines))%Z
+  then flat_map (fun l => l ++ [10%N]) (firstn (Z.to_nat (b - a)) (skipn (Z.to_nat a) lines))
+  else join_with 10 (skipn (Z.to_nat a) lines).
+(* ascending, non-overlapping edits, all relative to the original document *)
+Fixpoint lsp_apply (lines : list (list N)) (cur : Z) (tes : list text_edit) : list N :=
+  match tes with
+  | [] => seg lines cur (Z.of_nat (length lines))
+  | te :: r => seg lines cur (lp_line (te_start te)) ++ te_text te ++ lsp_apply lines (lp_line (te_end te)) r
+  end.
